@@ -12,7 +12,7 @@ BASELINE = "/root/.vp/BASELINE.json"
 
 def main():
     try:
-        core.build(need_cli=True, quiet=False)
+        core.build(need_cli=True, quiet=False, need_ovf=True)
     except core.Inconclusive as e:
         print("setup failed:", e)
         return 1
